@@ -34,7 +34,12 @@ def digit_scalars(rng, quick):
     return [x for x in s if 0 <= x < 2**255]
 
 
-def gen(rng, quick, tables, nmax):
+def gen(rng, quick, tables, nmax, msm_only=False):
+    """msm_only: just the multiscalar section (the builds without the zeroize feature, whose cfg sites are in Straus)"""
+    if msm_only:
+        full = gen(rng, quick, False, nmax)
+        k = next(i for i, o in enumerate(full) if o["op"] == "reset" and full[i + 1].get("out") == "Q")
+        return [{"op": "info"}] + full[k:]
     ops = [{"op": "info"}]
     # ---- 1. digit recodings
     for v in digit_scalars(rng, quick):
@@ -136,7 +141,7 @@ def gen(rng, quick, tables, nmax):
             ops.append({"op": "ed.precomputed", "static_points": st, "static_scalars": scalars(k, 2), "dynamic_scalars": [], "dynamic_points": [], "mode": "static", "out": "R"})
     # one multiscalar multiplication in the radix-2^8 Pippenger regime (>= 800 terms) whose scalars carry the extreme digits
     # -128 / 127 / 128 (cheap for the specification: the points are an arithmetic progression)
-    if nmax < 801:
+    if 8 < nmax < 801:
         n = 801
         ops += [{"op": "reset"}, {"op": "ed.mul_base", "in": [le(rng.randrange(1, L))], "out": "M0"}, {"op": "ed.basepoint", "out": "Q"}]
         names = ["M0"]
@@ -164,14 +169,16 @@ def run(ck):
         ck.apalache("AP_NafInd", 1, "NAF(%d): val = rec + carry*wgt, digits odd and below 2^(w-1) is INDUCTIVE (any number of steps, any scalar)" % w, cinit=c, init="IndInit")
     nmax = 191 if quick else 801
     if quick:
-        specs = [("s64", True), ("s64", False), ("v2", True), ("v2", False)]
+        specs = [("s64", True, ()), ("s64", False, ()), ("v2", True, ()), ("v2", False, ())]
     else:
-        specs = [(b, t) for b in ALL_BACKENDS for t in (True, False)]
-    bins = build_many([(b, t, "release", ()) for b, t in specs], jobs=4)
+        specs = [(b, t, ()) for b in ALL_BACKENDS for t in (True, False)]
+    # ".nz": built without the zeroize feature (both Straus copies have a cfg(feature = "zeroize") site in their bodies)
+    specs += [("s64", True, ("nz",)), ("v2", True, ("nz",))]
+    bins = build_many([(b, t, "release", f) for b, t, f in specs], jobs=4)
     traces = []
-    for b, t in specs:
-        cid = cfg_id(b, t)
-        ops = gen(ck.rng, quick, t, nmax)
+    for b, t, f in specs:
+        cid = cfg_id(b, t, "release", f)
+        ops = gen(ck.rng, quick, t, 8, msm_only=True) if f else gen(ck.rng, quick, t, nmax)
         variants = [(cid, ops)]
         if b in ("v2", "v512") and t:
             # run-time dispatch forced to the serial copy (and, on v512, to the AVX2 copy)
